@@ -84,6 +84,12 @@ fn main() {
         Some("panic-child-later") => {
             props::pipe::panic_child_later(args[2].parse().unwrap(), args[3].parse().unwrap(), args[4].parse().unwrap());
         }
+        Some("panic-child-handover") => {
+            props::pipe::panic_child_handover(args[2].parse().unwrap(), args[3].parse().unwrap(), args[4].parse().unwrap());
+        }
+        Some("many-child") => {
+            props::pipe::many_child(args[2].parse().unwrap(), args[3].parse().unwrap(), args[4].parse().unwrap());
+        }
         Some("deep-child") => {
             props::pipe::deep_child(args[2].parse().unwrap(), args[3].parse().unwrap(), args[4].parse().unwrap());
         }
